@@ -202,7 +202,8 @@ def check_excludes(job):
     msgs = []
     try:
         box.build({"in/a.cmake": "set(A 1)\n"})
-        pats = {"cli": ["c1", "c2/", "old*/"], "sfile": ["s1", "shared", "c2"], "user": ["u1", "shared", "old*"]}    # 'x/' and 'x' are different patterns
+        pats = {"cli": ["c1", "c2/", "old*/", "src/legacy/api.cmake", "in/sub/"], "sfile": ["s1", "shared", "c2", "src/legacy/other.cmake"],
+                "user": ["u1", "shared", "old*", "in/a.cmake"]}     # relative patterns with an inner slash stay as they are written    # 'x/' and 'x' are different patterns
         argv = []
         for p in (pats["cli"] if "cli" in subset else []):
             argv += ["-e", p]
@@ -413,7 +414,17 @@ def check_wrong_excludes(job):
             argv = ["-e", "g1"]
         elif good_src in trees:
             trees[good_src] = {"input": {"exclude_filters": ["g1"]}}
-        st, status, exc = run_main(box, argv, trees["sfile"] or ({} if bad_src == "sfile" or good_src == "sfile" else None), trees["user"] or None)
+        if isinstance(bad, list):
+            # a list with an entry that is no string: the complete run (pattern compilation included) must refuse it
+            with open(box.path("work", "s.yaml"), "w") as f:
+                f.write(yaml_dump(trees["sfile"]) if trees["sfile"] else "{}\n")
+            r = box.run(["-s", "s.yaml", "-o", "out"] + argv + ["in"], user_config=yaml_dump(trees["user"]) if trees["user"] else None)
+            if r["status"] == 0:
+                msgs.append(f"wrong-type: input.exclude_filters {bad!r} in the {bad_src} file (entry that is not a string) is accepted "
+                            f"silently: the run succeeds")
+            st = None
+        else:
+            st, status, exc = run_main(box, argv, trees["sfile"] or ({} if bad_src == "sfile" or good_src == "sfile" else None), trees["user"] or None)
         if st is not None:
             msgs.append(f"wrong-type: input.exclude_filters given {bad!r} in the {bad_src} file (a valid list comes from {good_src}) is "
                         f"silently dropped: the run goes ahead with {sorted(st.input.exclude_filters)}")
@@ -459,7 +470,8 @@ def run(ctx):
     ctx.sweep(check_outdir, ojobs, space="output directory resolution", selftest=2)
     wjobs = [(sec, opt, typ, src, bad) for sec, opt, typ in OPTIONS for src in ("sfile", "user") for bad in WRONG[typ]]
     ctx.sweep(check_wrong_type, wjobs, space="wrong-typed values", selftest=2)
-    xjobs = [(bs, bad, gs) for bs in ("sfile", "user") for bad in (7, True, {"k": "v"}, 1.5)
+    # ... and lists whose entries are not strings (YAML reads 1.10, on, ~ as a number, a boolean, null)
+    xjobs = [(bs, bad, gs) for bs in ("sfile", "user") for bad in (7, True, {"k": "v"}, 1.5, [1.10], ["ok", True], [None], [["nested"]])
              for gs in ("cli", "sfile", "user", "none") if gs != bs]
     ctx.sweep(check_wrong_excludes, xjobs, space="wrongly typed exclude_filters below/above a valid list", selftest=1)
     flagsets = [fs for k in range(0, 5) for fs in itertools.combinations(("-r", "-p", "-e", "-o"), k)]
